@@ -25,6 +25,12 @@ Theorem C12_kalman_sym_psd : forall n m k l (A C G Hm : Qmat) ys st,
 Proof. exact kalman_path_sym_psd. Qed.
 Print Assumptions C12_kalman_sym_psd.
 
+Theorem C12_kalman_ops_sym_psd : forall n m k l (A C G Hm : Qmat) ops st,
+  msym n (snd st) /\ mpsd n (snd st) ->
+  forall st', In (Some st') (kalman_ops n m k l A C G Hm st ops) -> msym n (snd st') /\ mpsd n (snd st').
+Proof. exact kalman_ops_sym_psd. Qed.
+Print Assumptions C12_kalman_ops_sym_psd.
+
 Theorem C12_kalman_update_sym_psd : forall n m k l (A C G Hm : Qmat) st y st',
   update n m k l A C G Hm st y = Some st' ->
   msym n (snd st) /\ mpsd n (snd st) -> msym n (snd st') /\ mpsd n (snd st').
